@@ -18,6 +18,8 @@ import (
 	"strings"
 	"sync"
 	"time"
+
+	glog "github.com/AdguardTeam/golibs/log"
 )
 
 // Registry maps property ids to drivers.
@@ -106,9 +108,15 @@ func runCase(p *Prop, env *Env, w *workerState, idx int) {
 		// that statements guarded by the level are executed too.
 		prev := slog.Default()
 		slog.SetDefault(slog.New(slog.NewTextHandler(io.Discard, &slog.HandlerOptions{Level: slog.LevelDebug})))
+		// (the proxy package logs through golibs/log, which has a level of
+		// its own and writes through the standard logger)
+		prevLevel := glog.GetLevel()
+		glog.SetLevel(glog.DEBUG)
+		log.SetOutput(io.Discard)
 		w.events["cases_under_a_debug_level_logger"]++
 		defer func() {
 			slog.SetDefault(prev)
+			glog.SetLevel(prevLevel)
 			log.SetOutput(os.Stderr)
 		}()
 	}
@@ -290,16 +298,65 @@ func runParent(p *Prop, env *Env, nworkers int) int {
 				}
 				go func() { done <- cmd.Wait() }()
 				var werr error
-				timedOut := false
-				select {
-				case werr = <-done:
-				case <-time.After(watchdogFor(env.Tier)):
-					timedOut = true
-					_ = cmd.Process.Signal(os.Interrupt)
-					_ = cmd.Process.Kill()
-					werr = <-done
+				timedOut, stalled := false, false
+				journalPath := filepath.Join(workDir, fmt.Sprintf("w%d.journal", wn))
+				watchdog := time.NewTimer(watchdogFor(env.Tier))
+				tick := time.NewTicker(5 * time.Second)
+				lastJournal, lastChange := "", time.Now()
+			wait:
+				for {
+					select {
+					case werr = <-done:
+						break wait
+					case <-watchdog.C:
+						timedOut = true
+						_ = cmd.Process.Signal(os.Interrupt)
+						_ = cmd.Process.Kill()
+						werr = <-done
+
+						break wait
+					case <-tick.C:
+						jb, _ := os.ReadFile(journalPath)
+						js := strings.TrimSpace(string(jb))
+						if js != lastJournal {
+							lastJournal, lastChange = js, time.Now()
+
+							continue
+						}
+						if _, aerr := strconv.Atoi(js); aerr == nil && time.Since(lastChange) > stallLimit(env.Tier) {
+							// One case has been in flight for a very long time: it
+							// is taken out and run on its own (below).
+							stalled = true
+							_ = cmd.Process.Kill()
+							werr = <-done
+
+							break wait
+						}
+					}
 				}
+				watchdog.Stop()
+				tick.Stop()
 				_ = ef.Close()
+				if stalled {
+					idx, _ := strconv.Atoi(lastJournal)
+					returned := runAlone(p, env, self, workDir, idx, m, &mu)
+					mu.Lock()
+					if returned {
+						m.Events["slow_cases_that_finished_when_run_alone"]++
+					} else {
+						v := &Violation{
+							Property: p.ID, Seed: env.Seed, Tier: env.Tier, Index: idx,
+							Sig: "no-return",
+							Msg: fmt.Sprintf("case %d does not return: in flight for more than %v in its worker, and again for more than %v when run alone in a process of its own", idx, stallLimit(env.Tier), stallLimit(env.Tier)),
+						}
+						m.Violations = append(m.Violations, v)
+						m.SigCount[v.Sig]++
+					}
+					mu.Unlock()
+					start = idx + 1
+
+					continue
+				}
 
 				resPath := filepath.Join(workDir, fmt.Sprintf("w%d.result.%d.json", wn, start))
 				if rb, rerr := os.ReadFile(resPath); rerr == nil && werr == nil {
@@ -384,6 +441,82 @@ func runParent(p *Prop, env *Env, nworkers int) int {
 	return report(p, env, m, time.Since(t0))
 }
 
+// stallLimit is how long one case may be in flight before it is taken out of
+// its worker and run alone (the slowest cases of the drivers take seconds in
+// the quick tier; one thorough case pauses for six minutes by design).
+func stallLimit(t Tier) time.Duration {
+	if v := os.Getenv("VERIF_STALL_S"); v != "" {
+		if n, err := strconv.Atoi(v); err == nil && n > 0 {
+			return time.Duration(n) * time.Second
+		}
+	}
+	if t == Thorough {
+		return 20 * time.Minute
+	}
+
+	return 5 * time.Minute
+}
+
+// runAlone runs one case as the only case of a process, with the stall limit
+// as its budget.  It merges what the case observed and tells whether the case
+// returned.
+func runAlone(p *Prop, env *Env, self, workDir string, idx int, m *Merged, mu *sync.Mutex) (returned bool) {
+	dir := filepath.Join(workDir, fmt.Sprintf("alone%d", idx))
+	if os.MkdirAll(dir, 0o755) != nil {
+		return true
+	}
+	ef, _ := os.Create(filepath.Join(dir, "stderr"))
+	cmd := exec.Command(self,
+		"-prop", p.ID, "-tier", string(env.Tier), "-seed", strconv.FormatInt(env.Seed, 10),
+		"-worker", "0", "-nworkers", "1", "-work", dir, "-start", strconv.Itoa(idx), "-count", "1",
+		"-repo", env.RepoDir, "-verif", env.VerifDir)
+	cmd.Stdout, cmd.Stderr = ef, ef
+	cmd.Env = append(os.Environ(), "VERIF_WORKER=1")
+	if err := cmd.Start(); err != nil {
+		_ = ef.Close()
+
+		return true
+	}
+	done := make(chan error, 1)
+	go func() { done <- cmd.Wait() }()
+	select {
+	case werr := <-done:
+		_ = ef.Close()
+		var res workerResult
+		rb, rerr := os.ReadFile(filepath.Join(dir, fmt.Sprintf("w0.result.%d.json", idx)))
+		mu.Lock()
+		defer mu.Unlock()
+		if rerr == nil && werr == nil && json.Unmarshal(rb, &res) == nil {
+			mergeResult(m, &res)
+		} else {
+			tail := tailFile(filepath.Join(dir, "stderr"), 60)
+			v := &Violation{Property: p.ID, Seed: env.Seed, Tier: env.Tier, Index: idx, Sig: "process-death:" + deathSite(tail),
+				Msg: fmt.Sprintf("process died (%v) while executing case %d alone\n%s", werr, idx, tail)}
+			m.Violations = append(m.Violations, v)
+			m.SigCount[v.Sig]++
+		}
+		if f, err := os.Open(filepath.Join(dir, "w0.viol.jsonl")); err == nil {
+			sc := bufio.NewScanner(f)
+			sc.Buffer(make([]byte, 1<<20), 64<<20)
+			for sc.Scan() {
+				var v Violation
+				if json.Unmarshal(sc.Bytes(), &v) == nil {
+					m.Violations = append(m.Violations, &v)
+				}
+			}
+			_ = f.Close()
+		}
+
+		return true
+	case <-time.After(stallLimit(env.Tier)):
+		_ = cmd.Process.Kill()
+		<-done
+		_ = ef.Close()
+
+		return false
+	}
+}
+
 // coldIndexes returns the cases that are run once more in fresh processes.
 func coldIndexes(p *Prop, env *Env, total int) (out []int) {
 	if p.Cold != nil {
@@ -446,7 +579,7 @@ func runCold(p *Prop, env *Env, self, workDir string, total int, m *Merged) (vio
 			timedOut := false
 			select {
 			case werr = <-done:
-			case <-time.After(watchdogFor(env.Tier)):
+			case <-time.After(stallLimit(env.Tier)):
 				timedOut = true
 				_ = cmd.Process.Kill()
 				werr = <-done
@@ -470,8 +603,13 @@ func runCold(p *Prop, env *Env, self, workDir string, total int, m *Merged) (vio
 				return
 			}
 			if timedOut {
-				m.Inconclusive["watchdog"]++
-				m.Notes = append(m.Notes, fmt.Sprintf("fresh process for case %d: wall-clock watchdog fired (inconclusive)", idx))
+				v := &Violation{
+					Property: p.ID, Seed: env.Seed, Tier: env.Tier, Index: idx,
+					Sig: "no-return",
+					Msg: fmt.Sprintf("case %d does not return within %v when it is run as the first case of a fresh process", idx, stallLimit(env.Tier)),
+				}
+				m.Violations = append(m.Violations, v)
+				m.SigCount[v.Sig]++
 
 				return
 			}
